@@ -305,6 +305,11 @@ def run(ctx):
     from .c03 import rule_ambiguity_guard, spec_tables
     rule_ambiguity_guard(ctx, idx, mir, spec_tables(), rid="R15.5")
 
+    # ------------------------------------------------------------------ R15.6 (shared with C13 R13.1)
+    r = ctx.rule("R15.6", "a non-ASCII-compatible encoding can never be installed (it trips debug assertions in the decoder / encoder): constructor discipline of AsciiCompatibleEncoding", "E-MIR", floor=2)
+    from .c13 import clause_ascii_compatible_ctor
+    clause_ascii_compatible_ctor(r, mir)
+
     ctx.not_decided += ["absence of panics / overflow for all inputs (only the accounting and guards of panic-capable constructs are decided)", "stack exhaustion inside the selectors / cssparser crates", "running-time bounds beyond progress of the state machine"]
     ctx.assumptions += ["reviewed entries of spec/panic_sites.json are guarded as stated there", "recursion detection follows resolved calls and closure creation; calls through generic trait bounds (type-structural recursion such as Option<T>::align) are not followed"]
     return ("Structural part only: progress of the tokenizer automaton for each of the 257 input symbols, must-typestate of the actions' "
